@@ -608,6 +608,14 @@ class Interp:
         if isinstance(cur, list) and isinstance(op, ast.Add):
             cur.extend(list(rhs))
             return cur
+        if isinstance(cur, Obj) and cur.cls is None and cur.tag == 'sparse':
+            r = self.lib.obj_binop(self, type(op).__name__, cur, rhs)
+            if r is NotImplemented:
+                raise Unsupported('in-place sparse op')
+            if isinstance(r, Obj):
+                cur.fields['dense'] = r.fields['dense']      # scipy sparse += is in place (same object)
+                return cur
+            return r
         if isinstance(cur, Obj) and cur.cls is not None:
             nm = {'Add': '__iadd__', 'Sub': '__isub__', 'Mult': '__imul__', 'Div': '__itruediv__',
                   'MatMult': '__imatmul__'}.get(type(op).__name__)
